@@ -174,6 +174,50 @@ fn run_inner(sc: &J) -> Result<Option<String>, String> {
             if sr.read(&mut &bad[..]).is_ok() { return Ok(Some("SpecificSingleObjectReader::new(): a message with a different fingerprint is accepted".into())); }
             Ok(None)
         }
+        // C13/C18: the single-object writers under short writes, injected errors and Interrupted at every sink call: Ok(n) means
+        // the sink holds exactly header ++ datum and n is its length; the next message on the same writer is complete again
+        "single_object_faulty_sink" => {
+            #[derive(serde::Serialize, Clone)]
+            struct Pt { x: i64, y: String }
+            impl apache_avro::AvroSchema for Pt {
+                fn get_schema() -> Schema { Schema::parse_str("{\"type\":\"record\",\"name\":\"Pt\",\"fields\":[{\"name\":\"x\",\"type\":\"long\"},{\"name\":\"y\",\"type\":\"string\"}]}").unwrap() }
+            }
+            impl From<Pt> for Value { fn from(p: Pt) -> Value { Value::Record(vec![("x".into(), Value::Long(p.x)), ("y".into(), Value::String(p.y))]) } }
+            let schema = <Pt as apache_avro::AvroSchema>::get_schema();
+            let pt = Pt { x: 300, y: "abcdefghij".into() };
+            let mut good = vec![0xC3u8, 0x01]; good.extend_from_slice(&crate::refimpl::crc64avro(schema.canonical_form().as_bytes()).to_le_bytes());
+            good.extend(apache_avro::to_avro_datum(&schema, Value::from(pt.clone())).map_err(|e| e.to_string())?);
+            let sw = apache_avro::SpecificSingleObjectWriter::<Pt>::new().map_err(|e| e.to_string())?;
+            for route in ["specific.write_value", "specific.write_ref", "specific.write", "generic.write_value_ref", "generic.write_value"] {
+                for accept in [1usize, 2, 3, 7, 9, 10, 11, usize::MAX] {
+                    let mut gw = apache_avro::GenericSingleObjectWriter::new_with_capacity(&schema, 64).map_err(|e| e.to_string())?;
+                    let mut run = |fail_at: Option<usize>, interrupt_at: Option<usize>| -> (Result<usize, String>, Vec<u8>, usize) {
+                        let mut sink = MatrixSink { data: Vec::new(), accept, fail_at, interrupt_at, calls: 0 };
+                        let r = match route {
+                            "specific.write_value" => sw.write_value(pt.clone(), &mut sink),
+                            "specific.write_ref" => sw.write_ref(&pt, &mut sink),
+                            "specific.write" => sw.write(pt.clone(), &mut sink),
+                            "generic.write_value_ref" => gw.write_value_ref(&Value::from(pt.clone()), &mut sink),
+                            _ => gw.write_value(Value::from(pt.clone()), &mut sink),
+                        };
+                        (r.map_err(|e| e.to_string()), sink.data, sink.calls)
+                    };
+                    let (_, _, calls) = run(None, None);
+                    let mut modes: Vec<(Option<usize>, Option<usize>)> = vec![(None, None)];
+                    for i in 0..calls.min(200) { modes.push((Some(i), None)); modes.push((None, Some(i))); }
+                    modes.push((None, None));   // and once more after all the failures, on the same (generic) writer
+                    for (fa, ia) in modes {
+                        let (r, data, _) = run(fa, ia);
+                        if let Ok(n) = r {
+                            if data != good || n != good.len() {
+                                return Ok(Some(format!("{route} accept={accept} fail_at={fa:?} interrupt_at={ia:?}: Ok({n}) but the sink holds {} bytes {:02x?}; header ++ datum is {} bytes {:02x?}", data.len(), &data[..data.len().min(16)], good.len(), &good[..16])));
+                            }
+                        }
+                    }
+                }
+            }
+            Ok(None)
+        }
         // C13: encode's returned count equals bytes appended (datum given as hex under schema)
         "encode_count" => {
             let schema = Schema::parse_str(sc["schema"].as_str().ok_or("schema")?).map_err(|e| e.to_string())?;
@@ -504,6 +548,36 @@ fn run_inner(sc: &J) -> Result<Option<String>, String> {
             if apache_avro::from_avro_datum(&schema, &mut &enc(l)[..], None).is_err() { return Ok(Some(format!("length {l} == limit is rejected"))); }
             if apache_avro::from_avro_datum(&schema, &mut &enc(l + 1)[..], None).is_ok() { return Ok(Some(format!("length {} > limit {l} is accepted", l + 1))); }
             if hk::safe_len(l).is_err() || hk::safe_len(l + 1).is_ok() { return Ok(Some("safe_len disagrees with the limit in force".into())); }
+            // "the allocation limit in force is the one EVERY decoder applies": generic decoder and schema-aware deserializer,
+            // length-prefixed (bytes, string) and schema-sized (fixed, and the container block size) requests
+            let string_schema = Schema::parse_str("\"string\"").map_err(|e| e.to_string())?;
+            for (what, sch, at, above) in [("bytes", &schema, enc(l), enc(l + 1)), ("string", &string_schema, enc(l), enc(l + 1))] {
+                let rd = apache_avro::reader::datum::GenericDatumReader::builder(sch).build().map_err(|e| e.to_string())?;
+                let ok_at = if what == "bytes" { rd.read_deser::<serde_bytes::ByteBuf>(&mut &at[..]).is_ok() } else { rd.read_deser::<String>(&mut &at[..]).is_ok() };
+                let ok_above = if what == "bytes" { rd.read_deser::<serde_bytes::ByteBuf>(&mut &above[..]).is_ok() } else { rd.read_deser::<String>(&mut &above[..]).is_ok() };
+                if !ok_at { return Ok(Some(format!("serde deserializer: {what} of length {l} == limit is rejected"))); }
+                if ok_above { return Ok(Some(format!("serde deserializer: {what} of length {} > limit {l} is accepted", l + 1))); }
+            }
+            for (size, must_ok) in [(l, true), (l + 1, false)] {
+                let fx = Schema::parse_str(&format!("{{\"type\":\"fixed\",\"name\":\"f\",\"size\":{size}}}")).map_err(|e| e.to_string())?;
+                let data = vec![1u8; size];
+                let g = apache_avro::from_avro_datum(&fx, &mut &data[..], None).is_ok();
+                let rd = apache_avro::reader::datum::GenericDatumReader::builder(&fx).build().map_err(|e| e.to_string())?;
+                let d = rd.read_deser::<serde_bytes::ByteBuf>(&mut &data[..]).is_ok();
+                if g != must_ok { return Ok(Some(format!("generic decoder: fixed of size {size} under limit {l}: accepted = {g}"))); }
+                if d != must_ok { return Ok(Some(format!("serde deserializer: fixed of size {size} under limit {l}: accepted = {d}"))); }
+            }
+            // container block whose byte size is above the limit
+            let long_schema = Schema::parse_str("\"long\"").map_err(|e| e.to_string())?;
+            let mut file = Vec::new();
+            if l >= 512 { let mut w = apache_avro::Writer::builder().schema(&long_schema).writer(&mut file).marker([4u8; 16]).build().map_err(|e| e.to_string())?; w.flush().map_err(|e| e.to_string())?; }
+            // (the header itself needs allocations of its metadata, so this part only runs for limits that admit a header)
+            for (size, must_ok) in (if l >= 512 { vec![(l, true), (l + 1, false)] } else { vec![] }) {
+                let mut f = file.clone();
+                f.extend(crate::refimpl::long(size as i64)); f.extend(crate::refimpl::long(size as i64)); f.extend(std::iter::repeat(2u8).take(size)); f.extend_from_slice(&[4u8; 16]);
+                let ok = apache_avro::Reader::new(&f[..]).map_err(|e| e.to_string())?.collect::<Result<Vec<Value>, _>>().is_ok();
+                if ok != must_ok { return Ok(Some(format!("container reader: block of {size} bytes under limit {l}: accepted = {ok}"))); }
+            }
             Ok(None)
         }
         // C03/C04/C15: write `datums` with `codec` (null|deflate) in blocks of `per_block` values, read back: same values
@@ -545,6 +619,23 @@ fn run_inner(sc: &J) -> Result<Option<String>, String> {
             let got = digest::Digest::finalize(d).to_vec();
             let want = rf::crc64avro(&data).to_le_bytes().to_vec();
             if got != want { return Ok(Some(format!("Rabin({:02x?}) = {:02x?}, specification says {:02x?}", data, got, want))); }
+            // the digest is a function of the byte string, however it is fed: every split point, byte by byte, with empty
+            // updates in between, reset and re-use
+            for split in 0..=data.len() {
+                let mut d = <Rabin as digest::Digest>::new();
+                digest::Digest::update(&mut d, &data[..split]);
+                digest::Digest::update(&mut d, &[] as &[u8]);
+                digest::Digest::update(&mut d, &data[split..]);
+                let got = digest::Digest::finalize(d).to_vec();
+                if got != want { return Ok(Some(format!("Rabin fed {:02x?} then {:02x?} = {:02x?}, specification says {:02x?}", &data[..split], &data[split..], got, want))); }
+            }
+            let mut d = <Rabin as digest::Digest>::new();
+            for b in &data { digest::Digest::update(&mut d, std::slice::from_ref(b)); }
+            let got = digest::Digest::finalize_reset(&mut d).to_vec();
+            if got != want { return Ok(Some(format!("Rabin fed byte by byte = {:02x?}, specification says {:02x?}", got, want))); }
+            digest::Digest::update(&mut d, &data);
+            let got = digest::Digest::finalize(d).to_vec();
+            if got != want { return Ok(Some(format!("Rabin after finalize_reset = {:02x?}, specification says {:02x?}", got, want))); }
             Ok(None)
         }
         "single_object_header" => {
